@@ -240,7 +240,7 @@ theorem doAfter_eff (s : State) (t : Tid) (c : Cid) (k : After) (ht : t < s.thre
       refine ⟨e1.trans (eff_setThread ..), fun c' => ?_⟩
       rw [thread_setThread_self _ _ _ (by rw [hl]; exact ht)]
       exact onRet_notCS _ _ _
-    | recv2 b =>
+    | recv2 b sq =>
       refine ⟨e1.trans (eff_setThread ..), fun c' => ?_⟩
       rw [thread_setThread_self _ _ _ (by rw [hl]; exact ht)]
       rfl
@@ -422,9 +422,9 @@ theorem exec_mutexInv {s : State} {t : Tid} (h : MutexInv s) (hr : runnable s t 
         rw [this]
         exact h t' c hcs (by rw [← hown]; exact hlen)
 
-theorem init_mutexInv (caps : List Nat) (progs : List (List Op)) : MutexInv (init caps progs) := by
+theorem init_mutexInv (cfg : Cfg) (caps : List Nat) (progs : List (List Op)) : MutexInv (init cfg caps progs) := by
   intro t c hcs _
-  have hpc : ((init caps progs).thread t).pc = .start ∨ ((init caps progs).thread t).pc = .done := by
+  have hpc : ((init cfg caps progs).thread t).pc = .start ∨ ((init cfg caps progs).thread t).pc = .done := by
     simp only [State.thread, init, List.getD, List.getElem?_map]
     cases progs[t]? <;> simp [dfltThread]
   rcases hpc with hpc | hpc <;> rw [hpc] at hcs <;> cases hcs
@@ -446,10 +446,10 @@ theorem apply_mutexInv {s s' : State} (h : MutexInv s) (ch : Choice) (hs : apply
       exact h t' c hcs hlen
     · cases hs
 
-theorem reachable_mutexInv {caps : List Nat} {progs : List (List Op)} {s : State}
-    (h : Reachable (init caps progs) s) : MutexInv s := by
+theorem reachable_mutexInv {cfg : Cfg} {caps : List Nat} {progs : List (List Op)} {s : State}
+    (h : Reachable (init cfg caps progs) s) : MutexInv s := by
   induction h with
-  | init => exact init_mutexInv caps progs
+  | init => exact init_mutexInv cfg caps progs
   | next ch _ hs ih => exact apply_mutexInv ih ch hs
 
 end LlgoVerif.Chan
